@@ -28,7 +28,7 @@ pub fn flat(repo: &Repository<IndexedFullStatus>, snap: &SnapshotFile) -> Outcom
         let mut m = BTreeMap::new();
         for item in repo.ls(&node, &LsOptions::default())? {
             let (path, n) = item?;
-            let p = path.to_string_lossy().to_string();
+            let p: String = path.to_string_lossy().to_string();
             let up = path.parent().map_or(String::new(), |x| x.to_string_lossy().to_string());
             let (kind, c) = match &n.node_type {
                 NodeType::File => {
@@ -45,9 +45,15 @@ pub fn flat(repo: &Repository<IndexedFullStatus>, snap: &SnapshotFile) -> Outcom
             };
             let ts = |t: Option<rustic_core::jiff::Timestamp>| t.map_or(-1, |t| t.as_second());
             let sig = format!("{kind}|{}|{}|{}|{}|{:?}|{c}", if kind == "file" { n.meta.size } else { 0 }, ts(n.meta.mtime), ts(n.meta.ctime), n.meta.inode, n.meta.mode);
+            if m.contains_key(&p) {
+                // the same name twice in one directory: an invalid tree
+                _ = m.insert(format!("?dup:{p}"), json!({"k":"dup","mt":0,"c":"ERR","sig":"dup","up":up,"size":0,"base":"","content":[],"subtree":""}));
+                continue;
+            }
             _ = m.insert(
-                p,
+                p.clone(),
                 json!({"k":kind,"mt":ts(n.meta.mtime),"c":c,"sig":sig,"up":up,"size":n.meta.size,
+                       "base":p.strip_suffix(".repaired").unwrap_or(""),
                        "content":n.content.as_ref().map_or(vec![], |c| c.iter().map(|i| short(i)).collect::<Vec<_>>()),
                        "subtree":n.subtree.map_or(String::new(), |t| short(&t))}),
             );
@@ -138,8 +144,8 @@ fn run_one(prog: &Value, out: &mut Out) {
     let mut collide_entries: Option<Value> = None;
     if let Some(dir) = prog.get("collide").and_then(Value::as_str) {
         let repo = tri!(rec, out, "open", full(&r));
-        let f0 = tri!(rec, out, "ls", flat(&repo, &snaps[0]));
-        let tid = f0.get(dir).map_or(String::new(), |n| n["subtree"].as_str().unwrap().to_string());
+        let dnode = tri!(rec, out, "dir node", scn::guard(|| repo.node_from_snapshot_and_path(&snaps[0], dir)));
+        let tid = dnode.subtree.map_or(String::new(), |t| t.to_hex().to_string());
         let bytes = tri!(rec, out, "cat tree", scn::guard(|| repo.cat_blob(rustic_core::repofile::BlobType::Tree, &tid)));
         drop(repo);
         let mut e = prog["sources"][0].as_array().unwrap().clone();
@@ -198,7 +204,8 @@ fn run_one(prog: &Value, out: &mut Out) {
                     // the rewritten snapshot of input i: `original` points to it; unchanged snapshots stay as they are
                     let mut outs = Vec::new();
                     for s in &snaps {
-                        let new = all.iter().find(|x| x.original == Some(s.id) && !ids_before.contains(&x.id));
+                        // (rewrite keeps the snapshot time; every input has its own)
+                        let new = all.iter().find(|x| x.time == s.time && !ids_before.contains(&x.id));
                         let still = all.iter().any(|x| x.id == s.id);
                         let (o, which) = match new {
                             Some(n) => (flat(&repo, n), "rewritten"),
